@@ -43,6 +43,9 @@ pub enum Placement {
     Slack { extra: u16, junk: u8 },
     /// Sub-slice of a larger buffer: `pre` filler bytes before, junk text after.
     Sub { pre: u8, junk: u8 },
+    /// The one buffer of this source that all clients of the run share (same address
+    /// in every client, possibly lexed by several of them at the same time).
+    Shared,
 }
 
 #[derive(Clone, Copy, Debug, PartialEq, Eq)]
@@ -104,7 +107,7 @@ const FILLER: &[u8] = b"/*\"'(%;&a=1\n)*/x";
 
 /// The same text in a particular piece of memory.
 pub struct Placed {
-    buf: String,
+    buf: Arc<String>,
     from: usize,
     to: usize,
 }
@@ -115,12 +118,16 @@ impl AsRef<str> for Placed {
     }
 }
 
-pub fn place(text: &str, p: Placement) -> Placed {
+pub fn place(text: &str, p: Placement, shared: Option<&Arc<String>>) -> Placed {
     match p {
+        Placement::Shared => match shared {
+            Some(b) => Placed { from: 0, to: b.len(), buf: b.clone() },
+            None => place(text, Placement::Exact, None),
+        },
         Placement::Exact => {
             let mut buf = String::with_capacity(text.len());
             buf.push_str(text);
-            Placed { from: 0, to: buf.len(), buf }
+            Placed { from: 0, to: buf.len(), buf: Arc::new(buf) }
         }
         Placement::Slack { extra, junk } => {
             let tail = JUNK_TAILS[junk as usize % JUNK_TAILS.len()];
@@ -129,7 +136,7 @@ pub fn place(text: &str, p: Placement) -> Placed {
             // leave junk in the spare capacity right after the text
             buf.push_str(tail);
             buf.truncate(text.len());
-            Placed { from: 0, to: buf.len(), buf }
+            Placed { from: 0, to: buf.len(), buf: Arc::new(buf) }
         }
         Placement::Sub { pre, junk } => {
             let tail = JUNK_TAILS[junk as usize % JUNK_TAILS.len()];
@@ -141,7 +148,7 @@ pub fn place(text: &str, p: Placement) -> Placed {
             buf.push_str(text);
             buf.push_str(tail);
             buf.push_str(tail);
-            Placed { from: pre, to: pre + text.len(), buf }
+            Placed { from: pre, to: pre + text.len(), buf: Arc::new(buf) }
         }
     }
 }
@@ -323,6 +330,8 @@ struct Shared {
     cvs: Vec<Condvar>,
     main_cv: Condvar,
     scenario: Scenario,
+    /// one shared, immutable buffer per source (Placement::Shared)
+    shared_bufs: Vec<Arc<String>>,
 }
 
 #[derive(Clone, Copy)]
@@ -746,7 +755,7 @@ fn do_lex(
     cs: &mut ClientState,
 ) {
     let entry = &shared.scenario.sources[lex.src];
-    let placed = place(&entry.text, lex.placement);
+    let placed = place(&entry.text, lex.placement, shared.shared_bufs.get(lex.src));
     {
         let mut st = shared.m.lock().unwrap();
         st.stats.lex_ops += 1;
@@ -958,6 +967,15 @@ pub fn run_scenario(sc: &Scenario) -> RunResult {
         cvs: (0..n).map(|_| Condvar::new()).collect(),
         main_cv: Condvar::new(),
         scenario: sc.clone(),
+        shared_bufs: sc
+            .sources
+            .iter()
+            .map(|s| {
+                let mut b = String::with_capacity(s.text.len());
+                b.push_str(&s.text);
+                Arc::new(b)
+            })
+            .collect(),
     });
     if n == 0 {
         let st = shared.m.lock().unwrap();
